@@ -17,3 +17,88 @@ Qed.
 
 Lemma le_length : forall n x, length (le n x) = n.
 Proof. induction n; intros; simpl; auto. Qed.
+
+(* ---- appended: bounds for crc32, fixed-width corollaries of unle_le, list helpers ---- *)
+
+Lemma lxor_lt_pow2 : forall a b n, a < 2 ^ n -> b < 2 ^ n -> N.lxor a b < 2 ^ n.
+Proof.
+  intros a b n Ha Hb.
+  destruct (N.eq_dec (N.lxor a b) 0) as [E|E].
+  - rewrite E. apply N.neq_0_lt_0. apply N.pow_nonzero. discriminate.
+  - apply N.log2_lt_pow2; [lia|].
+    pose proof (N.log2_lxor a b) as Hl.
+    assert (Hn : 0 < n).
+    { destruct (N.eq_dec n 0) as [->|]; [|lia].
+      change (2 ^ 0) with 1 in Ha, Hb.
+      assert (a = 0) by lia. assert (b = 0) by lia. subst. simpl in E. congruence. }
+    assert (Ha' : N.log2 a < n).
+    { destruct (N.eq_dec a 0) as [->|Na]; [simpl; lia|]. apply N.log2_lt_pow2; lia. }
+    assert (Hb' : N.log2 b < n).
+    { destruct (N.eq_dec b 0) as [->|Nb]; [simpl; lia|]. apply N.log2_lt_pow2; lia. }
+    lia.
+Qed.
+
+Lemma crc_bit_bound : forall c, c < 2 ^ 32 -> crc_bit c < 2 ^ 32.
+Proof.
+  intros c Hc. unfold crc_bit.
+  assert (Hs : N.shiftr c 1 < 2 ^ 32).
+  { rewrite N.shiftr_div_pow2. change (2 ^ 1) with 2.
+    apply N.div_lt_upper_bound; lia. }
+  destruct (N.odd c); [|exact Hs].
+  apply lxor_lt_pow2; [exact Hs|]. unfold crc_poly. reflexivity.
+Qed.
+
+Lemma crc_byte_bound : forall c b, c < 2 ^ 32 -> crc_byte c b < 2 ^ 32.
+Proof.
+  intros c b Hc. unfold crc_byte.
+  do 8 apply crc_bit_bound.
+  apply lxor_lt_pow2; [exact Hc|].
+  assert (b mod 256 < 256) by (apply N.mod_lt; lia).
+  change (2 ^ 32) with 4294967296. lia.
+Qed.
+
+Lemma crc32_bound : forall l, crc32 l < 2 ^ 32.
+Proof.
+  intros l. unfold crc32.
+  apply lxor_lt_pow2; [|reflexivity].
+  assert (G : forall l c, c < 2 ^ 32 -> fold_left crc_byte l c < 2 ^ 32).
+  { clear l. induction l as [|b l IH]; intros c Hc; [exact Hc|].
+    cbn [fold_left]. apply IH. apply crc_byte_bound. exact Hc. }
+  apply G. reflexivity.
+Qed.
+
+Lemma unle_le8 : forall x, x < 2 ^ 64 -> unle (le 8 x) = x.
+Proof. intros x Hx. apply unle_le. exact Hx. Qed.
+
+Lemma unle_le4 : forall x, x < 2 ^ 32 -> unle (le 4 x) = x.
+Proof. intros x Hx. apply unle_le. exact Hx. Qed.
+
+Lemma unle_le2 : forall x, x < 65536 -> unle (le 2 x) = x.
+Proof. intros x Hx. apply unle_le. exact Hx. Qed.
+
+Lemma firstn_app_exact : forall (A : Type) (a b : list A) n,
+  n = length a -> firstn n (a ++ b) = a.
+Proof.
+  intros A a b n ->. rewrite firstn_app, firstn_all.
+  replace (length a - length a)%nat with 0%nat by lia. cbn. apply app_nil_r.
+Qed.
+
+Lemma skipn_app_exact : forall (A : Type) (a b : list A) n,
+  n = length a -> skipn n (a ++ b) = b.
+Proof.
+  intros A a b n ->. rewrite skipn_app, skipn_all.
+  replace (length a - length a)%nat with 0%nat by lia. reflexivity.
+Qed.
+
+Lemma skipn_add : forall (A : Type) (a b : nat) (l : list A),
+  skipn (a + b) l = skipn b (skipn a l).
+Proof.
+  intros A a. induction a as [|a IH]; intros b l; [reflexivity|].
+  destruct l as [|x l]; [destruct b; reflexivity|]. cbn [Nat.add skipn]. apply IH.
+Qed.
+
+Lemma len_app : forall a b : bytes, len (a ++ b) = len a + len b.
+Proof. intros a b. unfold len. rewrite app_length. lia. Qed.
+
+Lemma len_le : forall n x, len (le n x) = N.of_nat n.
+Proof. intros n x. unfold len. rewrite le_length. reflexivity. Qed.
